@@ -266,3 +266,15 @@ pub fn structural_buckets(m: &Model, out: &mut CaseOut) {
 pub fn site_str(d: &Diff) -> &str {
     d.site.as_str()
 }
+
+pub const SHIPPED_FILES: [&str; 4] = ["example.hpo", "ontology.hpo", "example_v1.hpo", "example_v2.hpo"];
+
+/// Decode one of the binary files shipped in /repo/tests with the harness' independent decoder.
+/// Returns (format version, facts as the file describes them, raw bytes).
+pub fn shipped_facts(name: &str) -> Result<(u8, FactSet, Vec<u8>), String> {
+    let repo = std::env::var("VERIF_REPO").unwrap_or_else(|_| "/repo".to_string());
+    let path = format!("{repo}/tests/{name}");
+    let bytes = std::fs::read(&path).map_err(|e| format!("cannot read {path}: {e}"))?;
+    let (v, facts) = crate::codec::decode(&bytes)?;
+    Ok((v, facts.binary_view(v), bytes))
+}
